@@ -133,7 +133,7 @@ inline double reval(const Basic &b, const RealEnv &env)
         case SYMENGINE_TANH:
             return std::tanh(arg0(b, env));
         case SYMENGINE_COTH:
-            return std::cosh(arg0(b, env)) / std::sinh(arg0(b, env));
+            return 1.0 / std::tanh(arg0(b, env)); // cosh/sinh overflows to inf/inf beyond |x| = 710
         case SYMENGINE_ASINH:
             return std::asinh(arg0(b, env));
         case SYMENGINE_ACSCH:
@@ -185,13 +185,26 @@ inline double reval(const Basic &b, const RealEnv &env)
         case SYMENGINE_BOOLEAN_ATOM:
             return down_cast<const BooleanAtom &>(b).get_val() ? 1.0 : 0.0;
         case SYMENGINE_EQUALITY:
-            return arg0(b, env, 0) == arg0(b, env, 1) ? 1.0 : 0.0;
         case SYMENGINE_UNEQUALITY:
-            return arg0(b, env, 0) != arg0(b, env, 1) ? 1.0 : 0.0;
         case SYMENGINE_LESSTHAN:
-            return arg0(b, env, 0) <= arg0(b, env, 1) ? 1.0 : 0.0;
-        case SYMENGINE_STRICTLESSTHAN:
-            return arg0(b, env, 0) < arg0(b, env, 1) ? 1.0 : 0.0;
+        case SYMENGINE_STRICTLESSTHAN: {
+            double l = arg0(b, env, 0), r = arg0(b, env, 1);
+            // a comparison hides a non-finite operand behind a clean 0/1:
+            // nothing is judged there (the two sides may have reached
+            // infinity or NaN by different, equally legitimate routes)
+            if (!std::isfinite(l) || !std::isfinite(r))
+                throw RefUnsupported("comparison of a non-finite value");
+            switch (b.get_type_code()) {
+                case SYMENGINE_EQUALITY:
+                    return l == r ? 1.0 : 0.0;
+                case SYMENGINE_UNEQUALITY:
+                    return l != r ? 1.0 : 0.0;
+                case SYMENGINE_LESSTHAN:
+                    return l <= r ? 1.0 : 0.0;
+                default:
+                    return l < r ? 1.0 : 0.0;
+            }
+        }
         case SYMENGINE_NOT:
             return arg0(b, env) != 0.0 ? 0.0 : 1.0;
         case SYMENGINE_AND: {
@@ -242,6 +255,25 @@ inline double reval(const Basic &b, const RealEnv &env)
 }
 
 typedef std::complex<double> cd;
+// Arguments that lie on (or within 1e-7 of) a branch cut: the value there
+// depends on the sign of a zero, which different but equally correct ways of
+// computing the argument do not agree on. The harness judges no value at such
+// a point (a constant subexpression on a cut does not move when the inputs
+// are perturbed, so the conditioning test alone does not see it).
+inline unsigned &cut_hits()
+{
+    static unsigned n = 0;
+    return n;
+}
+inline void note_cut(bool on_cut)
+{
+    if (on_cut)
+        ++cut_hits();
+}
+inline bool tiny(double v, const cd &z)
+{
+    return std::fabs(v) <= 1e-7 * std::max(1.0, std::abs(z));
+}
 inline cd ceval(const Basic &b, const ComplexEnv &env);
 inline cd carg0(const Basic &b, const ComplexEnv &env, size_t k = 0)
 {
@@ -287,10 +319,18 @@ inline cd ceval(const Basic &b, const ComplexEnv &env)
             const Pow &p = down_cast<const Pow &>(b);
             if (eq(*p.get_base(), *E))
                 return std::exp(ceval(*p.get_exp(), env));
-            return std::pow(ceval(*p.get_base(), env), ceval(*p.get_exp(), env));
+            {
+                cd bs = ceval(*p.get_base(), env), ex = ceval(*p.get_exp(), env);
+                bool int_exp = ex.imag() == 0.0 && ex.real() == std::floor(ex.real());
+                note_cut(!int_exp && tiny(bs.imag(), bs) && bs.real() <= 0.0);
+                return std::pow(bs, ex);
+            }
         }
-        case SYMENGINE_LOG:
-            return std::log(carg0(b, env));
+        case SYMENGINE_LOG: {
+            cd z = carg0(b, env);
+            note_cut(tiny(z.imag(), z) && z.real() <= 0.0);
+            return std::log(z);
+        }
         case SYMENGINE_SIN:
             return std::sin(carg0(b, env));
         case SYMENGINE_COS:
@@ -304,11 +344,16 @@ inline cd ceval(const Basic &b, const ComplexEnv &env)
         case SYMENGINE_SEC:
             return one / std::cos(carg0(b, env));
         case SYMENGINE_ASIN:
-            return std::asin(carg0(b, env));
-        case SYMENGINE_ACOS:
-            return std::acos(carg0(b, env));
-        case SYMENGINE_ATAN:
-            return std::atan(carg0(b, env));
+        case SYMENGINE_ACOS: {
+            cd z = carg0(b, env);
+            note_cut(tiny(z.imag(), z) && std::fabs(z.real()) >= 1.0 - 1e-7);
+            return b.get_type_code() == SYMENGINE_ASIN ? std::asin(z) : std::acos(z);
+        }
+        case SYMENGINE_ATAN: {
+            cd z = carg0(b, env);
+            note_cut(tiny(z.real(), z) && std::fabs(z.imag()) >= 1.0 - 1e-7);
+            return std::atan(z);
+        }
         case SYMENGINE_SINH:
             return std::sinh(carg0(b, env));
         case SYMENGINE_COSH:
@@ -317,12 +362,21 @@ inline cd ceval(const Basic &b, const ComplexEnv &env)
             return std::tanh(carg0(b, env));
         case SYMENGINE_COTH:
             return one / std::tanh(carg0(b, env));
-        case SYMENGINE_ASINH:
-            return std::asinh(carg0(b, env));
-        case SYMENGINE_ACOSH:
-            return std::acosh(carg0(b, env));
-        case SYMENGINE_ATANH:
-            return std::atanh(carg0(b, env));
+        case SYMENGINE_ASINH: {
+            cd z = carg0(b, env);
+            note_cut(tiny(z.real(), z) && std::fabs(z.imag()) >= 1.0 - 1e-7);
+            return std::asinh(z);
+        }
+        case SYMENGINE_ACOSH: {
+            cd z = carg0(b, env);
+            note_cut(tiny(z.imag(), z) && z.real() <= 1.0 + 1e-7);
+            return std::acosh(z);
+        }
+        case SYMENGINE_ATANH: {
+            cd z = carg0(b, env);
+            note_cut(tiny(z.imag(), z) && std::fabs(z.real()) >= 1.0 - 1e-7);
+            return std::atanh(z);
+        }
         case SYMENGINE_ABS:
             return std::abs(carg0(b, env));
         case SYMENGINE_UNEVALUATED_EXPR:
